@@ -42,8 +42,9 @@ from vkit.sched import Scheduler  # noqa: E402
 
 PROP = "C12"
 DEBUG = [DebugTrail.DISABLE, DebugTrail.FIRST, DebugTrail.ALL]
-GRACE = float(os.environ.get("C12_GRACE", "3.0"))
-MAX_STEPS = 60_000
+GRACE = float(os.environ.get("C12_GRACE", "3.0"))             # nothing moves for this long -> hang candidate
+BLOCK_DETECT = float(os.environ.get("C12_BLOCK_DETECT", "0.1"))  # token holder idle (no CPU) -> release another
+MAX_STEPS = 400_000
 # sys.monitoring (local LINE events on the traced code objects only) is ~2x faster than sys.settrace; both engines
 # are cross-checked against each other at the start of every shard
 ENGINE = os.environ.get("C12_ENGINE") or ("monitoring" if hasattr(sys, "monitoring") else "settrace")
@@ -146,6 +147,36 @@ FAMILIES: dict[str, dict] = {
             {"sub": {}},
         ]},
         "dump": {"Cat": ["Cat('r', {'a': Cat('a', {'b': Cat('b')}), 'c': Cat('c')})", "Cat('')"]},
+    },
+    "wide": {  # many different field types: many call-cache entries per request
+        "src": ("@dataclass\nclass Leaf:\n    a: int\n    b: str\n\n"
+                "@dataclass\nclass Wide:\n    i: int\n    s: str\n    f: float\n    b: bool\n    raw: bytes\n"
+                "    li: List[int]\n    ls: List[str]\n    di: Dict[str, int]\n    oi: Optional[int]\n"
+                "    leaf: Leaf\n    leaves: List[Leaf]\n    oleaf: Optional[Leaf]\n    named: Dict[str, Leaf]\n"
+                "    kids: List['Wide'] = field(default_factory=list)\n"),
+        "load": {
+            "Wide": [
+                {"i": 1, "s": "s", "f": 1.5, "b": True, "raw": "YQ==", "li": [1, 2], "ls": ["x"], "di": {"k": 1},
+                 "oi": None, "leaf": {"a": 1, "b": "x"}, "leaves": [{"a": 2, "b": "y"}], "oleaf": {"a": 3, "b": "z"},
+                 "named": {"n": {"a": 4, "b": "w"}},
+                 "kids": [{"i": 2, "s": "", "f": 0.0, "b": False, "raw": "", "li": [], "ls": [], "di": {}, "oi": 5,
+                           "leaf": {"a": 0, "b": ""}, "leaves": [], "oleaf": None, "named": {}, "kids": []}]},
+                {"i": 0, "s": "", "f": 0.0, "b": False, "raw": "", "li": [], "ls": [], "di": {}, "oi": None,
+                 "leaf": {"a": 0, "b": ""}, "leaves": [], "oleaf": None, "named": {}},
+                {"i": 1, "s": "s", "f": 1.5, "b": True, "raw": "YQ==", "li": [1, "2"], "ls": ["x"], "di": {"k": 1},
+                 "oi": None, "leaf": {"a": 1, "b": "x"}, "leaves": [{"a": 2, "b": 3}], "oleaf": None, "named": {},
+                 "kids": [{"i": "2"}]},
+                {"i": 1},
+            ],
+            "Leaf": [{"a": 1, "b": "x"}, {"a": 0, "b": ""}, {"a": 1, "b": 2}, {"a": 1}],
+        },
+        "dump": {
+            "Wide": ["Wide(1, 's', 1.5, True, b'a', [1, 2], ['x'], {'k': 1}, None, Leaf(1, 'x'), [Leaf(2, 'y')], "
+                     "Leaf(3, 'z'), {'n': Leaf(4, 'w')}, [Wide(2, '', 0.0, False, b'', [], [], {}, 5, Leaf(0, ''), [], "
+                     "None, {}, [])])",
+                     "Wide(0, '', 0.0, False, b'', [], [], {}, None, Leaf(0, ''), [], None, {})"],
+            "Leaf": ["Leaf(1, 'x')", "Leaf(0, '')"],
+        },
     },
     "plain": {  # non-recursive control
         "src": ("@dataclass\nclass Inner:\n    a: int\n    b: str\n\n"
@@ -407,20 +438,28 @@ def _where(frame) -> str:
     return "none"
 
 
-def diagnose(retort, sched: Optional[Scheduler], me: int, nthreads: int, roots=None):
-    """-> (diagnosis, where the stub owner / most recently preempted thread is parked).  Used for bucket
-    signatures and details only, never as a verdict."""
+def _raised_during_creation(exc: Optional[BaseException]) -> bool:
+    tb = exc.__traceback__ if exc is not None else None
+    while tb is not None:
+        code = tb.tb_frame.f_code
+        if code.co_name == "_facade_provide" and code.co_filename in TRACED:
+            return True
+        tb = tb.tb_next
+    return False
+
+
+def diagnose(retort, sched: Optional[Scheduler], me: int, nthreads: int, roots=None, exc=None, last="none"):
+    """-> (diagnosis, landmark of the stub owner / of the most recent preemption).  Used for bucket signatures
+    and details only, never as a verdict."""
+    stopped = last
+    if sched is not None and sched.result.switches:
+        # landmark of the most recent preemption (recorded when it happened)
+        stopped = sched.result.switches[-1].info["landmark"]
+    if _raised_during_creation(exc):
+        return "raised_during_creation", stopped
     stubs = unbound_stubs(list(roots) if roots is not None else _shared_roots(retort))
     if not stubs and roots is not None:
         stubs = unbound_stubs(_shared_roots(retort))
-    stopped = "none"
-    if sched is not None:
-        # most recently preempted thread that is still parked
-        for sw in reversed(sched.result.switches):
-            fr = sched.parked_frame(sw.frm)
-            if sw.frm != me and fr is not None:
-                stopped = _where(fr)
-                break
     if not stubs:
         return "no_unbound_stub", stopped
     if sched is not None:
@@ -496,7 +535,7 @@ def execute(case, *, record=False, grace=GRACE, engine=None) -> Report:  # noqa:
 
     def note(i, rec: Record, sched, roots=None):
         if rec.differs:
-            rec.diag, rec.stopped = diagnose(retort, sched, i, n, roots)
+            rec.diag, rec.stopped = diagnose(retort, sched, i, n, roots, rec.got.exc)
             if rec.got.exc is not None:
                 root = first_foreign(rec.got.exc) or rec.got.exc
                 rec.site = exc_site(root)
@@ -527,9 +566,10 @@ def execute(case, *, record=False, grace=GRACE, engine=None) -> Report:  # noqa:
 
     def on_switch(sched, sw, frame):
         return {"in_request": _in_request(frame), "stub_open": _open_stub_owner(frame, None),
-                "cache": len(retort._call_cache)}
+                "cache": len(retort._call_cache), "landmark": _where(frame)}
 
     sched = Scheduler([body] * n, case["sched"], traced_files=TRACED, no_yield=NO_YIELD, grace=grace,
+                      block_detect=BLOCK_DETECT,
                       max_steps=MAX_STEPS, record=record, on_switch=on_switch, engine=engine or ENGINE)
     res = sched.run()
     rep.sched_result = res
@@ -549,12 +589,14 @@ def execute(case, *, record=False, grace=GRACE, engine=None) -> Report:  # noqa:
         return rep
 
     # ---- later calls (all threads are finished; this thread is not traced)
+    last = res.switches[-1].info["landmark"] if res.switches else "none"
+
     def later(what, kind, tk, fn, thread):
         for di, datum in enumerate(f.data(kind, tk)):
             got = call_outcome(fn, datum)
             rec = Record("later", thread, what, kind, tk, di, got, ref.call(kind, tk, di))
             if rec.differs:
-                rec.diag, rec.stopped = diagnose(retort, None, -1, n, [fn])
+                rec.diag, rec.stopped = diagnose(retort, None, -1, n, [fn], got.exc, last)
                 if got.exc is not None:
                     rec.site = exc_site(first_foreign(got.exc) or got.exc)
             rep.records.append(rec)
@@ -567,7 +609,7 @@ def execute(case, *, record=False, grace=GRACE, engine=None) -> Report:  # noqa:
         got = call_outcome(retort.get_loader if kind == "load" else retort.get_dumper, hint, keep_value=True)
         rec = Record("later", -1, "get_" + kind + "er", kind, tk, -1, got, ref.creation(kind, tk))
         if rec.differs:
-            rec.diag, rec.stopped = diagnose(retort, None, -1, n)
+            rec.diag, rec.stopped = diagnose(retort, None, -1, n, None, got.exc, last)
         rep.records.append(rec)
         if got.ok:
             later("retort_" + kind + "er", kind, tk, got.value, -1)
@@ -582,6 +624,10 @@ _HANGS = 0
 
 
 def _msg_slug(e: BaseException) -> str:
+    if isinstance(e, KeyError):
+        return "<key>"
+    if isinstance(e, (LoadError, BaseExceptionGroup)):
+        return ""  # data dependent
     s = re.sub(r"0x[0-9a-fA-F]+", "0x", str(e))
     s = re.sub(r"\d+", "N", s)
     return s[:60]
@@ -650,7 +696,7 @@ def evaluate(ctx: runner.Ctx, case, rep: Report):  # noqa: C901, PLR0912, PLR091
     in_window = [sw for sw in in_request if sw.info["cache"] > 0]
     stub_open = [sw for sw in fired if sw.info["stub_open"]]
     nontrivial = bool(in_request)
-    recursive = case["family"] != "plain"
+    recursive = case["family"] != "plain"  # every other family has a self- or mutually recursive model
     immediate = any(op[0] in ("load", "dump") or op[2] for ops in case["threads"] for op in ops)
     labels = [f"family:{case['family']}", f"threads:{n}", f"switches:{min(len(fired), 5)}",
               f"debug:{case['debug']}", "calls:immediate" if immediate else "calls:deferred_only"]
@@ -682,7 +728,7 @@ def evaluate(ctx: runner.Ctx, case, rep: Report):  # noqa: C901, PLR0912, PLR091
             known_hit = True
         ctx.violation(kind, (what, slug, r.diag, r.stopped), case,
                       f"thread {r.thread} {r.what}({r.tk}, datum {r.di}) {r.got.short()}; single-threaded reference: "
-                      f"{r.ref.short()}; raised at {r.site}; diagnosis {r.diag}; other thread parked in {r.stopped}; "
+                      f"{r.ref.short()}; raised at {r.site}; diagnosis {r.diag}; last preemption at {r.stopped}; "
                       f"switches {[sw.as_json() for sw in rep.switches][:6]}")
     if diffs:
         labels.append("outcome:differs")
@@ -734,6 +780,9 @@ PROGRAMS: dict[str, tuple] = {
     "plain_load2": ("plain", [[L("Outer")], [L("Outer")]]),
     "plain_load_vs_dump": ("plain", [[L("Outer")], [D("Outer")]]),
     "plain_inner_vs_outer": ("plain", [[L("Inner")], [L("Outer")]]),
+    "wide_load2": ("wide", [[L("Wide")], [L("Wide")]]),
+    "wide_load_vs_dump": ("wide", [[L("Wide")], [D("Wide")]]),
+    "wide_deferred_mix": ("wide", [[GL("Wide"), GD("Leaf")], [GD("Wide"), GL("List[Leaf]")]]),
     # deferred calls only: loaders/dumpers are created in the race and called after it (the known unbound-stub
     # window cannot be hit by construction; everything else -- creation errors, wrong/permanently broken loaders -- can)
     "tree_deferred2": ("tree", [[GL("Node")], [GL("Node")]]),
@@ -758,8 +807,11 @@ class Profile:
     """Recorded sequential run of a program (threads in priority order, no preemption)."""
 
     def __init__(self, case):
-        rep = execute(dict(case, sched={"prio": case["sched"]["prio"], "cp": []}), record=True)
-        if rep.status != "ok" or rep.fallbacks:
+        for _attempt in range(4):
+            rep = execute(dict(case, sched={"prio": case["sched"]["prio"], "cp": []}), record=True)
+            if rep.status == "ok" and not rep.fallbacks:
+                break  # (a liveness fallback can fire spuriously when the machine is heavily oversubscribed)
+        else:
             raise env.HarnessError(f"sequential profile run ended with {rep.status}, fallbacks={rep.fallbacks}")
         self.log = rep.log
         self.total = rep.steps
@@ -853,6 +905,9 @@ def _sweeps(tier):
                 out.append((name, prio, 2, True, "conflict"))
         out.append(("tree_load2", (0, 1), 0, True, "conflict"))
         out.append(("tree_load_vs_dump", (0, 1), 1, False, "conflict"))
+        out.append(("tree_model_vs_list", (0, 1), 1, True, "conflict"))
+        out.append(("tree_model_vs_list", (1, 0), 1, True, "conflict"))
+        out.append(("mutual_deferred_ends", (0, 1), 0, False, "conflict"))
         return out
     for name in THOROUGH_ALL:
         for prio in _prios(name):
